@@ -67,6 +67,8 @@ BOUND = {
                 "aliases: every combination of {default} + 2-3 non-default values per keyword on every file of the format",
 }
 TIME_CAP = {"quick": 240, "thorough": 1800}
+BOUND["quick"] += '; ListOfDicts readers also on a JSON file whose key holds equal values of different types (10, 10.0, true, 1, 0, 0.0) and a CSV file whose header repeats a name; first 3 casts per menu'
+BOUND["thorough"] += "; plus the additions listed for the quick tier"
 
 # ---------------------------------------------------------------------------
 # tables and files (everything JSON-able; a case carries its file spec)
